@@ -68,6 +68,16 @@ func (s *Session) verifyFunc(fn *ssa.Function, c *Contract) (vc *FnVC, err error
 		fr.paramVals[p.Name()] = args[i]
 		fr.observe(p.Name(), p.Type(), args[i], 0, &vc.obs)
 	}
+	// free variables of an anonymous function verified on its own: unknown captured values
+	for _, fv := range fn.FreeVars {
+		srt := s.te.SortOf(fv.Type())
+		t := vc.declOnce("fv_"+fv.Name(), srt)
+		fr.assumeTyped(fv.Type(), t)
+		if _, isPtr := fv.Type().Underlying().(*types.Pointer); isPtr {
+			vc.assume(Term{fmt.Sprintf("(and (not (= %s 0)) (old_alloc %s))", t.S, t.S), SBool})
+		}
+		fr.vals[fv] = t
+	}
 	// requires
 	entryEnv := func(state *State) *Env {
 		env := fr.specEnv(state, fr.oldState)
